@@ -42,6 +42,30 @@ def through_symlink(v, cov):
         finally:
             a.destroy()
     cov["frame_through_symlink_commands"] = n
+    # the last name of a file: A and L are two names of one file (A recorded as the file, L as a hard link to it); A is deleted;
+    # a fix that selects only the link (its target is outside the selection and cannot be re-created) must leave the remaining
+    # name and its bytes alone - it is the only copy of the data on the disk
+    m = 0
+    for sel in (("-f", "L"), ("-f", "L", "-m"), ("-d", "d2")):
+        a = arr.Array(arr.Conf(nd=2, np=1, copies=2), seed=vlib.seed() * 10 + 7)
+        try:
+            a.write_file(0, "A", [1, 2], mtime=11)
+            os.link(a.path(0, "A"), a.path(0, "L"))
+            a.write_file(0, "K", [5], mtime=12)
+            a.write_file(1, "B", [3, 4], mtime=13)
+            if a.run("sync").rc != 0:
+                raise vlib.ToolFailure("sync failed in the hard link frame scenario")
+            want = open(a.path(0, "L"), "rb").read()
+            os.remove(a.path(0, "A"))
+            a.run("fix", *sel)
+            m += 1
+            if not os.path.exists(a.path(0, "L")) or open(a.path(0, "L"), "rb").read() != want:
+                v.violation("'fix %s' removed or changed d0/L, the remaining name of a file whose other name (outside the selection) is gone"
+                            % " ".join(sel), replay_obj={"kind": "hardlink-frame", "options": list(sel)}, signature="last-hardlink-name-removed")
+                break
+        finally:
+            a.destroy()
+    cov["frame_last_hardlink_name_commands"] = m
 
 
 def run(tier):
